@@ -648,7 +648,7 @@ class PLSSDesc:
 
         require_colon = self.require_colon
         if sec_colon_required is not None:
-            require_colon = self.sec_colon_required
+            require_colon = sec_colon_required
         elif sec_colon_cautious:
             require_colon = SecFinder.SEC_COLON_CAUTIOUS
 
